@@ -1434,16 +1434,28 @@ func TestVerifC15(t *testing.T) {
 		res.NotExhaustive(fmt.Sprintf("budget reached after %d of %d functions (smallest first)", st.specs-int64(len(c15Pool)), total))
 	}
 
-	// samples
+	// samples: the first function of a few different flavours
+	want := []func(sp c15Spec) bool{
+		func(sp c15Spec) bool { return len(sp.Ops) == 2 && sp.Ops[0] != sp.Ops[1] && strings.HasPrefix(sp.Ops[0], "a=") },
+		func(sp c15Spec) bool { return len(sp.Res) == 2 && len(sp.Ops) == 2 && strings.HasPrefix(sp.Ops[1], "call:") },
+		func(sp c15Spec) bool { return sp.Shape == 3 && len(sp.Ops) == 1 && strings.HasPrefix(sp.Ops[0], "tswitch") },
+		func(sp c15Spec) bool { return len(sp.Ops) == 3 && sp.Ops[2] == "rec" && sp.Pkg == "client" },
+		func(sp c15Spec) bool { return len(sp.Ops) == 3 && sp.Res[0] == kS && strings.HasPrefix(sp.Ops[1], "s=append") },
+	}
+	got := make([]bool, len(want))
 	ns := 0
 	c15Enumerate(bounds, func(sp c15Spec) bool {
-		if len(sp.Ops) >= 2 && ns < 4 && (ns == 0 || sp.Shape > 0 || len(sp.Res) == 2) {
-			fn, _ := c15Compile(sp)
-			src, _ := fn.Source(0)
-			res.Sample(map[string]any{"key": sp.Key(), "source": src, "input_vectors": fn.numVecs()})
-			ns++
+		for i, w := range want {
+			if !got[i] && w(sp) {
+				got[i] = true
+				ns++
+				fn, _ := c15Compile(sp)
+				src, _ := fn.Source(0)
+				res.Sample(map[string]any{"key": sp.Key(), "source": src, "input_vectors": fn.numVecs()})
+				break
+			}
 		}
-		return ns < 4
+		return ns < len(want)
 	})
 
 	// findings: smallest first; each is confirmed in isolation (its own module) before it is reported
